@@ -26,7 +26,8 @@ KINDS = ('in', 'other', 'z', 'repeat', 'beyond', 'gap', 'compbeyond', 'subbase')
 def plan(tier, seed):
     n = 700 if tier == 'quick' else 9000
     return [{'version': v, 'n': n} for v in tables.versions()] + [{'version': v, 'n': n, 'zmsg': True}
-                                                                  for v in tables.versions()[::3]]
+                                                                  for v in tables.versions()[::3]] + \
+        [{'kind': 'profile', 'version': v, 'n': n // 10} for v in tables.versions()]
 
 
 def make_line(rng, v, seg, kind, toks, ec):
@@ -213,7 +214,72 @@ def check(parser, v, text, fg, rec, kinds=(), instruct=()):
         rec.violation(cause, case, {k: str(x)[:300] for k, x in r[1].items()}, row=row)
 
 
+def run_profile(spec, rec):
+    """a message profile whose segment keeps only the first fields of the official one: a message filling later fields is
+    either refused or parsed without losing them"""
+    from hl7apy import parser
+    from hl7apy.exceptions import HL7apyException
+    from . import c18
+    v = spec['version']
+    rng = gen.rng_for(spec['seed'], 'c03-profile', v)
+    toks = gen.Tokens('p' + str(spec['shard']))
+    msgs = tables.messages(v)
+    names = [n for n in ('ADT_A01', 'ORU_R01', 'ADT_A05', 'ORM_O01', 'ACK', 'ADT_A03') if n in msgs and
+             structref.usable(v, msgs[n]) and structref.msh9_for(v, n)]
+    ec = er7ref.STD
+    for i in range(spec['n']):
+        if not names:
+            break
+        name = names[i % len(names)]
+        node = msgs[name]
+        tops = [c for c in node.children if c.kind == 'SEG' and c.name != 'MSH' and c.card[0] >= 1 and
+                len([r for r in gen.usable_rows(v, c.name)]) >= 6 and tables.segment_name_places(node)[c.name] == 1]
+        if not tops:
+            continue
+        tgt = tops[rng.randrange(len(tops))]
+        rows = gen.usable_rows(v, tgt.name)
+        keep = rows[rng.randint(1, len(rows) - 3)].num
+        t = c18.thaw(tables.lib(v).MESSAGES[name])
+        for c in t[1]:
+            if c[0] == tgt.name:
+                c[1][1] = [f for f in c[1][1] if int(f[0].split('_')[1]) <= keep]
+        prof = {name: c18.freeze(t)}
+        later = [r for r in rows if r.num > keep]
+        vals = {}
+        for r in rng.sample(later, min(2, len(later))) + [rows[0]]:
+            vals[r.num] = toks.next()
+        line = tgt.name + '|' + '|'.join(vals.get(k, '') for k in range(1, max(vals) + 1))
+        lines = []
+        for l in structref.emit(node, rng, 'required', 1):
+            lines.append(structref.msh_line(v, name) if l.seg == 'MSH' else
+                         (line if l.seg == tgt.name else make_line(rng, v, l.seg, 'in', toks, gen.full_ec(ec))))
+        if line not in lines:
+            continue
+        text = '\r'.join(lines)
+        for fg in (True, False):
+            for level in (2, 1):
+                case = {'kind': 'profile', 'version': v, 'structure': name, 'find_groups': fg, 'level': level, 'text': text,
+                        'segment': tgt.name, 'kept_fields': keep}
+                rec.evaluation(('profile', v, name, tgt.name, keep, fg, level, tuple(sorted(vals))))
+                try:
+                    out = parser.parse_message(text, message_profile=prof, find_groups=fg, validation_level=level).to_er7()
+                except HL7apyException as e:
+                    rec.count('profile_surfaced_exceptions')
+                    continue
+                except Exception:
+                    rec.count('non_library_exceptions')
+                    continue
+                rec.count('profile_conservation_comparisons')
+                r = compare(text, out, ec)
+                if r is not None:
+                    rec.violation('content-lost-under-a-profile:%s' % r[0], case, {k: str(x)[:200] for k, x in r[1].items()},
+                                  row='%s|%s' % (v, name))
+    rec.seen('versions', v)
+
+
 def run_shard(spec, rec):
+    if spec.get('kind') == 'profile':
+        return run_profile(spec, rec)
     from hl7apy import parser
     v = spec['version']
     rng = gen.rng_for(spec['seed'], 'c03', v, spec.get('zmsg'))
@@ -244,6 +310,24 @@ def run_shard(spec, rec):
 
 def replay(case, rec):
     from hl7apy import parser
+    if case.get('kind') == 'profile':
+        from . import c18
+        from hl7apy.exceptions import HL7apyException
+        v, name = case['version'], case['structure']
+        t = c18.thaw(tables.lib(v).MESSAGES[name])
+        for c in t[1]:
+            if c[0] == case['segment']:
+                c[1][1] = [f for f in c[1][1] if int(f[0].split('_')[1]) <= case['kept_fields']]
+        try:
+            out = parser.parse_message(case['text'], message_profile={name: c18.freeze(t)}, find_groups=case['find_groups'],
+                                       validation_level=case['level']).to_er7()
+        except HL7apyException:
+            return
+        r = compare(case['text'], out, er7ref.STD)
+        if r is not None:
+            rec.violation('content-lost-under-a-profile:%s' % r[0], case, {k: str(x)[:200] for k, x in r[1].items()},
+                          row='%s|%s' % (v, name))
+        return
     if case.get('kind') == 'structure':
         node = tables.messages(case['version'])[case['structure']]
         why = structref.unusable_reason(case['version'], node)
